@@ -9,6 +9,7 @@ import (
 	"reflect"
 	"sort"
 	"strings"
+	"testing/iotest"
 
 	"github.com/segmentio/encoding/thrift"
 	"verif/mc/explore"
@@ -134,6 +135,13 @@ func embeddedBytes(c *explore.Ctx) {
 	c.Case(map[string]any{"protocol": p.String(), "shape": sh.Name, "pattern": pattern, "bytes": fmt.Sprintf("%x", trunc(got))})
 }
 
+// failsHalfWay cannot be encoded: the enum does not fit 32 bits, which the encoder finds after two fields.
+type failsHalfWay struct {
+	A int32  `thrift:"1"`
+	S string `thrift:"2"`
+	E int64  `thrift:"3,enum"`
+}
+
 func marshalBytes(c *explore.Ctx) {
 	s := tgen.EnumStruct(c, tgen.Options{MaxFields: 2, Thorough: c.Thorough()})
 	v := tgen.EnumValue(c, s)
@@ -148,6 +156,13 @@ func marshalBytes(c *explore.Ctx) {
 	c.Count("model_selfcheck", 1)
 	var got []byte
 	var err error
+	// about every 4th case follows a Marshal call that fails after part of its value was written (with any protocol)
+	if (len(want)+int(p))%4 == 0 { // a function of the case, so that a replay does the same
+		explore.Catch(func() {
+			thrift.Marshal(impl(protos[len(want)%3]), failsHalfWay{A: 7, S: "written before the failure", E: 1 << 40})
+		})
+		desc += " (after a Marshal call that failed half-way)"
+	}
 	if pv, ps := explore.Catch(func() { got, err = thrift.Marshal(impl(p), v.Interface()) }); pv != nil {
 		c.Fail("Marshal:panic:"+ps, "Marshal panicked: %v for %s", pv, desc)
 		return
@@ -624,7 +639,7 @@ func altEncodings(c *explore.Ctx) {
 			alts = append(alts, alt{name, spec.Encode(p, nil, a, ol.o)})
 		}
 	}
-	for _, a := range alts {
+	for ai, a := range alts {
 		out := reflect.New(s.Type)
 		var err error
 		if pv, ps := explore.Catch(func() { err = thrift.Unmarshal(impl(p), a.b, out.Interface()) }); pv != nil {
@@ -637,6 +652,20 @@ func altEncodings(c *explore.Ctx) {
 		}
 		if ds := pgen.Diffs(v, out.Elem()); len(ds) > 0 {
 			c.Fail("Unmarshal:wrong-value:"+p.String()+":"+a.name+":"+typeSet(ast), "Unmarshal of the %s encoding % x of %s differs at %s: %s", a.name, trunc(a.b), desc, ds[0].Path, ds[0].Why)
+		}
+		// the same bytes through a Decoder on a bufio.Reader with a small buffer, fed in small packets: a
+		// fixed-width value then straddles what is buffered (the first two encodings of each case)
+		if ai < 2 {
+			alt := reflect.New(s.Type)
+			var aerr error
+			rd := bufio.NewReaderSize(iotest.HalfReader(bytes.NewReader(a.b)), 16)
+			if pv, ps := explore.Catch(func() { aerr = thrift.NewDecoder(impl(p).NewReader(rd)).Decode(alt.Interface()) }); pv != nil {
+				c.Fail("Decoder:panic:"+ps+":"+explore.PanicClass(pv), "Decoder over a small bufio.Reader panicked: %v on %s encoding % x of %s", pv, a.name, trunc(a.b), desc)
+			} else if aerr != nil {
+				c.Fail("Decoder:rejects-conformant:bufio:"+p.String()+":"+typeSet(ast), "a Decoder over a 16-byte bufio.Reader fed in small packets rejects the %s encoding % x of %s: %v", a.name, trunc(a.b), desc, aerr)
+			} else if ds := pgen.Diffs(v, alt.Elem()); len(ds) > 0 {
+				c.Fail("Decoder:wrong-value:bufio:"+p.String()+":"+typeSet(ast), "a Decoder over a 16-byte bufio.Reader fed in small packets decodes the %s encoding % x of %s differently at %s: %s", a.name, trunc(a.b), desc, ds[0].Path, ds[0].Why)
+			}
 		}
 	}
 	c.Inner(int64(len(alts)))
@@ -772,10 +801,10 @@ func Spec() *explore.Spec {
 		Families: []*explore.Family{
 			{Name: "golden", Body: golden, Doc: "worked examples and constants transcribed from the specifications pin the reference model"},
 			{Name: "embedded-bytes", ShardDepth: 2, Body: embeddedBytes, Doc: "struct types whose fields are promoted through up to 5 levels of embedding (3 shapes) x 13 value patterns x 3 protocols: Marshal bytes equal the specification's encoding of the flat field list"},
-			{Name: "marshal-bytes", ShardDepth: 2, Body: marshalBytes, Bound: func(string) int { return 1 }, Doc: "struct types (1-2 fields, C04 palette) x id layouts x values x 3 protocols: Marshal bytes equal the specification model's bytes (decoded content for multi-entry maps/sets)"},
+			{Name: "marshal-bytes", ShardDepth: 2, Body: marshalBytes, Bound: func(string) int { return 1 }, Doc: "struct types (1-2 fields, C04 palette) x id layouts x values x 3 protocols: Marshal bytes equal the specification model's bytes (decoded content for multi-entry maps/sets); about every 4th call follows a Marshal call that failed after part of its value had been written"},
 			{Name: "writer-kinds", ShardDepth: 2, Body: writerKinds, Doc: "every Writer call of the alphabet (after one of 12 earlier calls) x 3 protocols on three other kinds of io.Writer than bytes.Buffer (nothing but Write; an io.ByteWriter / io.StringWriter of an unknown type; a 16-byte bufio.Writer): the bytes that reach the writer equal the specification model's"},
 			{Name: "writer-calls", ShardDepth: 2, Body: writerCalls, Doc: "every sequence of up to 2 (3 thorough) Writer calls over an alphabet of ~330 calls with boundary arguments x 3 protocols, byte-for-byte against the model"},
-			{Name: "alt-encodings", ShardDepth: 2, Body: altEncodings, Bound: func(string) int { return 1 }, Doc: "every conformant alternative encoding (field order permutations; compact: long field headers, long list headers, non-minimal varints, bool element type 1, combined) is accepted by Unmarshal with the same value"},
+			{Name: "alt-encodings", ShardDepth: 2, Body: altEncodings, Bound: func(string) int { return 1 }, Doc: "every conformant alternative encoding (field order permutations; compact: long field headers, long list headers, non-minimal varints, bool element type 1, combined) is accepted by Unmarshal, and by a Decoder over a 16-byte bufio.Reader fed in small packets, with the same value"},
 			{Name: "readers", ShardDepth: 2, Body: readers, Doc: "ReadMessage / ReadField / ReadList / ReadMap on specification-encoded headers incl. long forms"},
 		},
 		Rule: "every (type, layout, value, protocol) and every call sequence within the bounds; the model's encoder/decoder are checked inverse on every struct explored (model_selfcheck counter)",
